@@ -118,7 +118,7 @@ def run(ctx):
         tags = applied.get(fn)
         if not tags:
             raise AnalysisError('C07.2: cannot determine which XML element %s is applied to' % fn)
-        pname = f.params()[0]
+        pname = common.cparams(f)[0]
         seen_attr = {}
         for p in paths_of(repo, f, unroll=1, asserts='fork'):
             for e in p.events:
